@@ -1,4 +1,4 @@
-\* simulation: 86 class, programs <= 12 items, 3 labels
+\* simulation: 86 class, programs <= 12 items (+ closing definitions), 3 labels
 CONSTANTS
   VarMode = "rel8"
   VarShort = 2
@@ -7,16 +7,17 @@ CONSTANTS
   RelFpuOK = FALSE
   Labels = {"la", "lb", "lc"}
   MaxItems = 12
-  Fills = {1, 2, 3, 123, 125, 126}
+  Fills = {1, 2, 3, 4, 119}
   AbsWidths = {2}
-  EquOffs = {0, 1, 2}
+  EquOffs = {2}
   Orgs = {0}
   Fixed = TRUE
   ThrowErrors = FALSE
-  WithExtra = FALSE
+  WithExtra = TRUE
   AllowIllFormed = FALSE
   Complete = TRUE
 INIT GInit
 NEXT GNext
 CHECK_DEADLOCK FALSE
+INVARIANTS TypeOK Fixpoint ExtraPassIsStutter
 ACTION_CONSTRAINT OnDone
